@@ -1,5 +1,6 @@
 #![allow(dead_code)]
 mod checks;
+mod dbg;
 mod engine;
 mod explore;
 mod refm;
